@@ -155,6 +155,9 @@ class Gen:
             if self.gen >= 3:
                 # legal but not canonical spellings: the string is a storage field and has to come back as written
                 locs = locs + ["./weights.bin", "sub//w.data", "sub/./w.data", "a/../w.bin", "dir/w.bin/", " spaced name.bin"]
+            if self.gen >= 4:
+                # characters that are separators elsewhere but ordinary file-name characters here
+                locs = locs + ["weights\\layer0.bin", "dir\\sub/w.bin", "w:1.bin", "ünï.bin"]
             e.key, e.value = "location", locs[self.t.pick(len(locs))]
             if self.t.flag():
                 e = tp.external_data.add()
@@ -392,7 +395,9 @@ class Gen:
 
     def function(self, fp, ir_version):
         fp.name = self.fresh("fn").replace("/", "_").replace(":", "_").replace(" ", "_")
-        fp.domain = ["custom.domain", "pkg", "f.d"][self.t.pick(3)]
+        # version 4: a function in the default domain under its alias spelling (kept as written in the function, while
+        # nodes calling it normalise the alias away)
+        fp.domain = ["custom.domain", "pkg", "f.d", "ai.onnx"][self.t.pick(4)] if self.gen >= 4 else ["custom.domain", "pkg", "f.d"][self.t.pick(3)]
         if ir_version >= 10 and self.t.flag("function_overload", 3):
             fp.overload = ["o1", "o2"][self.t.pick(2)]
         if self.t.flag("function_doc", 5):
